@@ -575,7 +575,9 @@ impl ShardFileManager {
                             // is covered by the invariants as they stand
                             let e = ChunkCacheElement { cas_start_index, cas_chunk_offset, shard_index: shard_index as u16 };
                             let m0 = shard_col.chunk_lookup@; let m1 = m0.insert(h, e);
-                            assert(trunc_table(**s)[vx_n2 - 1] == (h, (cas_start_index, cas_chunk_offset as u32)));
+                            // what goes into the index IS the shard's table row (xorb header position, chunk offset): the fact that makes a
+                            // later query look at the right xorb header and report the right chunk range (C05), not a proof convenience
+                            /*@C05,C11,C18*/ assert(trunc_table(**s)[vx_n2 - 1] == (h, (cas_start_index, cas_chunk_offset as u32)));
                             lemma_coll_insert(shard_col.hmac_key, shard_col.shard_list@, m0, h, e);
                             assert forall|hh: u64| (forall|jj: int| 0 <= jj < vx_n2 ==> (#[trigger] trunc_table(**s)[jj]).0 != hh)
                                 implies #[trigger] same_at(m1, c0.chunk_lookup@, hh) by {
@@ -600,7 +602,8 @@ impl ShardFileManager {
                 lemma_step_trans(bk0.shard_collections@, bk1.shard_collections@, bk3.shard_collections@, bk0.collection_by_key@, bk1.collection_by_key@, bk3.collection_by_key@,
                                  bk0.shard_lookup_by_shard_hash@, bk0.shard_lookup_by_shard_hash@, bk3.shard_lookup_by_shard_hash@);
                 lemma_extend_step(ocs, bk0.shard_collections@, bk3.shard_collections@, new_shards@, k0, bk0.collection_by_key@, bk3.collection_by_key@, bk0.shard_lookup_by_shard_hash@, bk3.shard_lookup_by_shard_hash@);
-                assert(entry_from_batch(bk3.shard_collections@, bk3.collection_by_key@, (shard_col_index, shard_index), s.shard_hash, new_shards@, k0 + 1)) by {
+                // carries the property: the location the code recorded IS (collection of s's key, position s was pushed at)
+                /*@C18*/ assert(entry_from_batch(bk3.shard_collections@, bk3.collection_by_key@, (shard_col_index, shard_index), s.shard_hash, new_shards@, k0 + 1)) by {
                     assert(new_shards@[k0].shard_hash == s.shard_hash);
                 }
                 lemma_entries_step(obh, bk0.shard_collections@, bk3.shard_collections@, bk0.collection_by_key@, bk3.collection_by_key@, bk0.shard_lookup_by_shard_hash@, bk3.shard_lookup_by_shard_hash@, new_shards@, k0);
